@@ -1,5 +1,6 @@
 import Ibx.Model.Retention
 import Ibx.Lemmas.Retention
+import Ibx.Lemmas.FileRefine
 /-
   C12 — retention removes exactly the expired messages and nothing else.
   Only property theorems, their non-vacuity examples and counter-witnesses live here
@@ -281,6 +282,123 @@ theorem backdated_delivery_survives :
       .client (.add boxC (hdrAt 10) [9]), .scan false]
     fin.phase = .done false ∧ fin.store.msgs.any (fun m => decide (m.hdr.date < 500) && inBox boxC m) = true := by
   decide
+
+/-! ### a delivery that lands between the snapshot and the sweep -/
+
+/-- the scanner's own steps and the context: everything but a client operation -/
+def Act.isClient : Act → Bool
+  | .client _ => true
+  | _ => false
+
+/-- **fresh_mail_survives_scanner_steps.**  A message that is in the store at ANY moment of a scan (whatever snapshot
+    the scanner holds, however many of its removals are still to come) and is not older than the cutoff is still in
+    the store after any number of further steps of the scanner (snapshots, removals, selects, cancellation, mailboxes
+    discovered late).  This is `interleaved_removes_only_expired` read for one message: the scanner's only mutating
+    call is `RemoveMessage(mailbox, id)` for the (mailbox, id) of an EXPIRED snapshot entry, an id never denotes two
+    messages, so no such call can hit it. -/
+theorem fresh_mail_survives_scanner_steps (c : Cfg) (cutoff : Int) (timerReady : Bool) (st : St) (h : Inv cutoff st)
+    (x : Msg) (hx : x ∈ st.store.msgs) (hfresh : cutoff ≤ x.hdr.date) (post : List Act) (hpost : ∀ a ∈ post, Act.isClient a = false) :
+    x ∈ (runActs c cutoff timerReady st post).store.msgs := by
+  induction post generalizing st with
+  | nil => exact hx
+  | cons a post ih =>
+    have ha := hpost a List.mem_cons_self
+    have hrest : ∀ a ∈ post, Act.isClient a = false := fun a' h' => hpost a' (List.mem_cons_of_mem _ h')
+    have hi := inv_act c cutoff timerReady st a h
+    simp only [runActs, List.foldl_cons]
+    refine ih _ hi ?_ hrest
+    cases a with
+    | client op => exact absurd ha (by simp [Act.isClient])
+    | cancel => exact hx
+    | discover b => exact hx
+    | scan coin => exact scan_step_keeps_fresh c cutoff timerReady coin st h x hx hfresh
+
+/-- **delivery_between_snapshot_and_sweep_survives** (corollary of `interleaved_removes_only_expired` /
+    `scan_step_keeps_fresh` with exactly this reading).  For every store, every order of mailboxes, every prefix `pre`
+    of any interleaving (so: the scan stands anywhere — before the snapshot of the mailbox, with the snapshot in hand,
+    between any two of its removals, at the select), every delivery `add b hdr src` dated at or after the cutoff that
+    lands at that point and is itself stored (not refused by the byte limit), and every continuation `post` made of
+    scanner steps: the delivered message — id `next b + 1`, the metadata and bytes delivered — is listed in mailbox `b`
+    afterwards. -/
+theorem delivery_between_snapshot_and_sweep_survives (c : Cfg) (cutoff : Int) (timerReady : Bool) (s0 : Store) (names : List Bytes)
+    (hwf : WF s0) (pre post : List Act) (b : Bytes) (hdr : Meta) (src : Bytes) (hfresh : cutoff ≤ hdr.date)
+    (hpost : ∀ a ∈ post, Act.isClient a = false) :
+    let mid := runActs c cutoff timerReady (init s0 names) pre
+    let x : Msg := { box := b, id := mid.store.next b + 1, hdr := hdr, seen := false, source := src }
+    x ∈ (act c cutoff timerReady mid (.client (.add b hdr src))).store.msgs →
+    x ∈ listing (runActs c cutoff timerReady (init s0 names) (pre ++ [.client (.add b hdr src)] ++ post)).store b := by
+  intro mid x hx
+  have hi : Inv cutoff mid := inv_run c cutoff timerReady _ pre (inv_init cutoff s0 names hwf)
+  have hi' := inv_act c cutoff timerReady mid (.client (.add b hdr src)) hi
+  have := fresh_mail_survives_scanner_steps c cutoff timerReady _ hi' x hx hfresh post hpost
+  rw [runActs_append, runActs_append]
+  simp only [listing, List.mem_filter]
+  exact ⟨this, by simp [inBox, x]⟩
+
+/-- with no byte limit the delivered message is always stored (the cap evicts older ones only) -/
+theorem delivery_is_stored (c : Cfg) (hl : c.limit = 0) (s : Store) (b : Bytes) (hdr : Meta) (src : Bytes) :
+    ({ box := b, id := s.next b + 1, hdr := hdr, seen := false, source := src } : Msg) ∈ (step c s (.add b hdr src)).1.msgs := by
+  have h := Ibx.Lemmas.FileRefine.add_listing c s b hdr src
+  have hc' : ({ c with limit := 0 } : Cfg) = c := by cases c; simp_all
+  rw [hc'] at h
+  have hm : Ibx.Lemmas.FileRefine.newMsg s b hdr src ∈ listing (step c s (.add b hdr src)).1 b := by
+    rw [show Ibx.Lemmas.FileRefine.sstep c s (.add b hdr src) = step c s (.add b hdr src) from rfl] at h
+    rw [h]; simp
+  exact (List.mem_filter.1 hm).1
+
+/-- the schedule of the window: the scan takes the snapshot of mailbox c (one message, expired), THEN fresh mail is
+    delivered to c, then the scanner runs on -/
+def windowActs : List Act :=
+  [.scan false, .client (.add boxC (hdrAt 1000) [9]), .scan false, .scan false, .scan false, .scan false, .scan false]
+
+example : (runActs cfg0 500 false (init demo [boxC]) (windowActs.take 1)).phase =
+    .sweep [{ box := boxC, id := 1, hdr := hdrAt 400, seen := false, source := [4] }] [] := by decide
+/-- the present code on that schedule: c/1 (expired) is gone, c/2 (the fresh delivery) is listed -/
+example : (listing (runActs cfg0 500 false (init demo [boxC]) windowActs).store boxC).map evOf = [(boxC, 2)] := by decide
+example : ({ box := boxC, id := 2, hdr := hdrAt 1000, seen := false, source := [9] } : Msg) ∈
+    listing (runActs cfg0 500 false (init demo [boxC]) ([.scan false] ++ [.client (.add boxC (hdrAt 1000) [9])] ++ windowActs.drop 2)).store boxC :=
+  delivery_between_snapshot_and_sweep_survives cfg0 500 false demo [boxC] demo_wf [.scan false] (windowActs.drop 2) boxC (hdrAt 1000) [9]
+    (by decide) (by decide) (by decide)
+
+/-- the variant model with `removeEach` IS the present model: every step, hence every run -/
+theorem scanStepV_removeEach (c : Cfg) (cutoff : Int) (timerReady coin : Bool) (v : StV) :
+    (scanStepV .removeEach c cutoff timerReady coin v).st = scanStep c cutoff timerReady coin v.st := by
+  unfold scanStepV
+  split <;> first | rfl | (rename_i h _ _; cases h) | skip
+  all_goals first | rfl | contradiction
+
+theorem runActsV_removeEach (c : Cfg) (cutoff : Int) (timerReady : Bool) (v : StV) (acts : List Act) :
+    (runActsV .removeEach c cutoff timerReady v acts).st = runActs c cutoff timerReady v.st acts := by
+  induction acts generalizing v with
+  | nil => rfl
+  | cons a acts ih =>
+    simp only [runActsV, runActs, List.foldl_cons] at ih ⊢
+    rw [ih]
+    congr 1
+    cases a with
+    | scan coin => exact scanStepV_removeEach c cutoff timerReady coin v
+    | client op => rfl
+    | cancel => rfl
+    | discover b => rfl
+
+example : (listing (runActsV .removeEach cfg0 500 false (initV demo [boxC]) windowActs).st.store boxC).map evOf = [(boxC, 2)] := by decide
+
+/-- **purge_variant_loses_fresh_delivery** (counter-witness for `purgeWhenAllExpired`).  Same store, same schedule:
+    every message of the snapshot of c has expired, so the variant purges the mailbox — and with it the message that
+    was delivered after the snapshot, which never expired and which the scanner never saw.  It is listed before the
+    scanner's next step and gone after it; the scan's own bookkeeping shows a deletion of a message dated after the
+    cutoff (what `interleaved_removes_only_expired` excludes for the code). -/
+theorem purge_variant_loses_fresh_delivery :
+    let before := runActsV .purgeWhenAllExpired cfg0 500 false (initV demo [boxC]) (windowActs.take 2)
+    let fin := runActsV .purgeWhenAllExpired cfg0 500 false (initV demo [boxC]) windowActs
+    (listing before.st.store boxC).map evOf = [(boxC, 1), (boxC, 2)] ∧
+    fin.st.phase = .done false ∧ listing fin.st.store boxC = [] ∧
+    fin.st.removed.map (fun m => (m.id, m.hdr.date)) = [(1, 400), (2, 1000)] ∧ fin.st.calls = 1 := by
+  decide
+
+/-- when nothing is delivered in the window the two variants end in the same store (why ordinary tests keep passing) -/
+example : (runActsV .purgeWhenAllExpired cfg0 500 false (initV demo [boxA, boxB, boxC]) (List.replicate 20 (.scan false))).st.store.msgs =
+    (runActsV .removeEach cfg0 500 false (initV demo [boxA, boxB, boxC]) (List.replicate 20 (.scan false))).st.store.msgs := by decide
 
 /-! ### cancellation of a scan -/
 
